@@ -188,6 +188,38 @@ pub fn gen_c17(seed: u64, thorough: bool, only: Option<u64>, out: &mut Out) {
       d.insert(1.min(d.len()), "AAAA".to_string());
       variants.push((d, epoch.clone(), Some(false), "a three-byte line among the honest shares"));
     }
+    // a repeat that is NOT next to its first occurrence, inside the first t distinct shares
+    if tt >= 3 {
+      let mut l: Vec<String> = vec![shares_b64[0].clone(), shares_b64[1].clone(), shares_b64[0].clone()];
+      l.extend(shares_b64[2..tt].iter().cloned());
+      variants.push((l, epoch.clone(), Some(true), "a share repeated after another one, ahead of the remaining distinct shares"));
+    }
+    // threshold 1: the polynomial is constant, so the share is valid at every point - also at points >= 2^128
+    if tt == 1 {
+      if let Ok(raw) = BASE64_STANDARD.decode(&shares_b64[0]) {
+        for x in [crate::g_fp::le24(1, 5), crate::g_fp::le24(1, 12450), crate::g_fp::le24(0, u128::MAX)] {
+          let mut b = raw.clone();
+          if b.len() >= 32 {
+            b[8..32].copy_from_slice(&x);
+            variants.push((vec![BASE64_STANDARD.encode(&b)], epoch.clone(), Some(true), "a threshold-1 share moved to a point at the top of the field"));
+          }
+        }
+      }
+    }
+    // text that is not ASCII: a two-, three- and four-byte character inserted at every byte offset 0..15 of a share line
+    if gi % 5 == 0 {
+      for ch in ['\u{e9}', '\u{20ac}', '\u{1f600}'] {
+        for off in 0..16usize {
+          let mut line = shares_b64[0].clone();
+          if off <= line.len() {
+            line.insert(off, ch);
+            let mut l2 = vec![line];
+            l2.extend(shares_b64[1..tt.max(1)].iter().cloned());
+            variants.push((l2, epoch.clone(), Some(false), "a non-ASCII character inside the first line"));
+          }
+        }
+      }
+    }
     for (list, ep, expect, what) in variants {
       let ser = list.join("\n");
       let obs = group_obs(&ser, &ep);
@@ -251,7 +283,8 @@ pub fn gen_c18(seed: u64, thorough: bool, only: Option<u64>, out: &mut Out) {
       let auxs: Vec<Option<Vec<u8>>> = (0..size)
         .map(|i| match (i + g) % 4 {
           0 => None,
-          1 => Some({ let l_ = 1 + r.below(30) as usize; r.bytes(l_) }),
+          // (now and then associated data longer than a kilobyte: several cipher blocks, more than any fixed buffer)
+          1 => Some({ let l_ = if !big && (g + i) % 7 == 1 { 1000 + r.below(600) as usize } else { 1 + r.below(30) as usize }; r.bytes(l_) }),
           2 if gi % 3 == 0 => { has_empty_aux = true; Some(vec![]) }
           _ => Some(r.bytes(3)),
         })
